@@ -351,3 +351,92 @@ func ContentOf(v ssa.Value) ssa.Value {
 	}
 	return Resolve(v)
 }
+
+// CollectedFieldSources resolves a read of field f of an element taken from a slice that the function itself
+// collected (s = append(s, T{…f: x…}) in an earlier pass, then ranged over or indexed): it returns the values x
+// stored into f by the struct literals appended to that slice, or nil when v is not such a read. The result is a
+// may-set (which element is read is not tracked).
+func CollectedFieldSources(v ssa.Value) []ssa.Value {
+	var elem ssa.Value
+	field := -1
+	switch x := v.(type) {
+	case *ssa.Field:
+		elem, field = x.X, x.Field
+	case *ssa.UnOp:
+		if fa, ok := x.X.(*ssa.FieldAddr); ok && x.Op == token.MUL {
+			elem, field = fa.X, fa.Field
+		}
+	}
+	if elem == nil {
+		return nil
+	}
+	// the element: a load of &s[i] (or that address itself)
+	var slice ssa.Value
+	cands := append(Sources(elem), elem)
+	// the loop variable as a local: the element is copied into it whole at the top of each pass
+	if al, ok := elem.(*ssa.Alloc); ok && al.Referrers() != nil {
+		for _, r := range *al.Referrers() {
+			if st, ok := r.(*ssa.Store); ok && st.Addr == ssa.Value(al) {
+				cands = append(cands, st.Val)
+			}
+		}
+	}
+	for _, src := range cands {
+		if u, ok := src.(*ssa.UnOp); ok && u.Op == token.MUL {
+			src = u.X
+		}
+		if ia, ok := src.(*ssa.IndexAddr); ok {
+			slice = ia.X
+		}
+	}
+	if slice == nil {
+		return nil
+	}
+	var out []ssa.Value
+	seen := map[ssa.Value]bool{}
+	var walk func(s ssa.Value, d int)
+	walk = func(s ssa.Value, d int) {
+		if s == nil || seen[s] || d > 6 {
+			return
+		}
+		seen[s] = true
+		for _, src := range Sources(s) {
+			call, ok := src.(*ssa.Call)
+			if !ok {
+				continue
+			}
+			b, ok := call.Call.Value.(*ssa.Builtin)
+			if !ok || b.Name() != "append" || len(call.Call.Args) != 2 {
+				continue
+			}
+			walk(call.Call.Args[0], d+1)
+			for _, el := range VariadicElems(call.Call.Args[1]) {
+				if el == nil {
+					continue
+				}
+				// a struct literal: load of a local whose fields were stored one by one
+				u, ok := el.(*ssa.UnOp)
+				if !ok || u.Op != token.MUL {
+					continue
+				}
+				al, ok := u.X.(*ssa.Alloc)
+				if !ok || al.Referrers() == nil {
+					continue
+				}
+				for _, r := range *al.Referrers() {
+					fa, ok := r.(*ssa.FieldAddr)
+					if !ok || fa.Field != field || fa.Referrers() == nil {
+						continue
+					}
+					for _, rr := range *fa.Referrers() {
+						if st, ok := rr.(*ssa.Store); ok && st.Addr == ssa.Value(fa) {
+							out = append(out, st.Val)
+						}
+					}
+				}
+			}
+		}
+	}
+	walk(slice, 0)
+	return out
+}
